@@ -18,6 +18,9 @@ RULE = ("direct: (a) exhaustive multisets of <= 3 (quick) / <= 5 (thorough) read
         "plus a FEW-READS stream: trios / quartets / single samples where a member has c reads all stacked on the same 2-3 "
         "variants, every c in 1..k+2 for k in {2..8, 15}, once with all members at c and once mixed with members having many "
         "reads (total span <= k in Coq; a member keeps >= min(c, per-sample cap) reads; a crash of whatshap phase is a violation). "
+        "LARGE-SCALE direct stream: 70..1040 variants (instances beyond 64 / 128 / 256 / 1024), dense local reads saturating hot regions, "
+        "two-variant fillers, sparse long-range reads (2-4 variants spanning 64..n variant indices, mate-pair / linked-read like), caps "
+        "1..3, bridging on/off; L1 on all, L2 replay on those with <= 420 variants. "
         "The direct stream also draws k from 1..8,15,23, 0..45 reads, up to 40 variants, genome-scale coordinates, exact duplicate reads, "
         "preferred sets None / {} / some / all / unmatched, a second call on the same ReadSet object, and a malformed stream (a read with "
         "< 2 variants: ValueError class only). The main CLI stream also omits --internal-downsampling (default 15) and uses "
@@ -244,6 +247,10 @@ def gen_large(rng, count):
         for a in range(rng.randint(0, 2), nv - 2, step):
             if rng.random() < 0.85:
                 reads.append((0, [a, a + 1] + ([a + 2] if rng.random() < 0.2 else [])))
+                if rng.random() < 0.15:
+                    reads.append((0, [a, a + 1]))                      # duplicate: undecided after the first iteration
+            if rng.random() < 0.3 and a + step + 1 < nv:
+                reads.append((0, [a + 1, a + step]))                   # joins two fillers: covers nothing new -> bridging
         # sparse long-range reads
         for _ in range(rng.randint(1, 6)):
             a = rng.randrange(0, nv // 3)
@@ -486,6 +493,10 @@ def check_cli(ctx, specs, label):
             ctx.tally(f"cli.family_size={len(rec['family'])}")
             ctx.tally(f"cli.k={spec['k']}")
             ctx.tally("cli.selected_reads", len(rec["reads"]))
+            rank = {p: i for i, p in enumerate(rec["accessible_positions"])}
+            for thr in (64, 128, 256):
+                if any(rank.get(r["variants"][-1][0], 0) - rank.get(r["variants"][0][0], 0) >= thr for r in rec["reads"]):
+                    ctx.tally(f"cli.records_with_selected_read_spanning>={thr}_variants")
             if any(r["source_id"] != 0 for r in rec["reads"]):
                 ctx.tally("cli.records_with_preferred_source_reads")
     if not terms:
@@ -529,15 +540,10 @@ def run(ctx):
     ctx.exhaustive = True
     recs, failing = check_direct(ctx, CORPUS + ex + rnd, "all")
     check_malformed(ctx, list(gen_malformed(rng, ctx.n(60, 600))))
-    # large-scale stream: L1 on every case, the model replay (L2) on the cases with <= 140 variants and every third larger one
-    large = list(gen_large(rng, ctx.n(54, 400)))
-    counter = {"n": 0}
-
-    def l2_select(reads, k):
-        nvar = len({p for _, vs in reads for p, _ in vs})
-        counter["n"] += 1
-        return nvar <= 140 or (nvar <= 420 and counter["n"] % 3 == 0)
-    check_direct(ctx, large, "large", l2_select=l2_select)
+    # large-scale stream: L1 on every case; the model replay (L2) on all cases with <= 420 variants (the > 1024-variant
+    # instances are L1 only: replaying them in the model costs ~1 min of vm_compute each)
+    large = list(gen_large(rng, ctx.n(45, 400)))
+    check_direct(ctx, large, "large", l2_select=lambda reads, k: len({p for _, vs in reads for p, _ in vs}) <= 420)
     for r in recs[:2] + recs[-2:]:
         ctx.sample({"reads": r[0], "k": r[1], "preferred": r[2], "bridging": r[3], "impl_selected": r[4],
                     "outer_iterations": len(r[5])})
@@ -575,6 +581,9 @@ def run(ctx):
             kw["distrust"] = True
             kw.setdefault("var", {})["include_homozygous"] = (i % 10 == 2)
         specs.append(phase_cli.make_spec(rng, trio=(i % 3 == 0), tag="PS", low_cov_gaps=False, **kw))
+    for nv in ctx.n([70, 140, 270], [70, 70, 140, 140, 270, 270, 520]):
+        for trio in (False, True):
+            specs.append(phase_cli.make_large_spec(rng, nv, trio=trio, tag="PS", low_cov_gaps=False, k=rng.choice([2, 3, 5])))
     check_cli(ctx, specs, "cli")
     check_cli_stacked(ctx, gen_stacked_specs(ctx), "st")
     check_cap_limit(ctx)
